@@ -172,7 +172,9 @@ def main():
                 new_failures.append({"case": c, "impl": rec["impl"],
                                      "failure": fail})
         key = mod.nontrivial_key(c, rec["impl"])
-        if key is not None:
+        if isinstance(key, (set, frozenset, list)):
+            distinct.update(key)
+        elif key is not None:
             distinct.add(key)
     for site, fail in known_seen.items():
         print(f"KNOWN-FINDING: property={prop} {known[site]['what']}")
